@@ -20,7 +20,7 @@ def specs(rng, tier, count):
     for i in range(count):
         v, g = combos[i % len(combos)]
         dim = 1 + (i // len(combos)) % 3 if g == "plain" else None
-        out.append(KC.gen_spec(rng, variant=v, geo=g, dim=dim, tier=tier))
+        out.append(KC.gen_spec(rng, variant=v, geo=g, dim=dim, tier=tier, mean_nonzero=(v == "Simple" and i % 2 == 0)))
     return out
 
 
